@@ -25,6 +25,9 @@ pub enum Op {
     /// Environment fault, not a session operation: the store record of the id the request came
     /// with vanishes now (TTL expiry / a concurrent delete), behind the session's back.
     Vanish,
+    /// Environment fault + `sync()`: the next `update` of the store fails once (a transient error); the call must fail and
+    /// leave the pending changes pending.
+    SyncFault,
 }
 
 impl Op {
@@ -52,6 +55,7 @@ impl Op {
             Op::CClear => "client.clear",
             Op::CIsEmpty { .. } => "client.is_empty",
             Op::Vanish => "env.record_vanishes",
+            Op::SyncFault => "env.store_update_fails_once+sync",
         }
     }
     /// Short name without the API flavour, used in signatures.
@@ -73,6 +77,7 @@ impl Op {
             Op::CClear => "client_clear",
             Op::CIsEmpty { .. } => "client_is_empty",
             Op::Vanish => "record_vanishes",
+            Op::SyncFault => "sync_with_store_fault",
         }
     }
     pub fn show(&self) -> String {
@@ -104,6 +109,7 @@ impl Op {
             Op::CClear => json!(["cclear"]),
             Op::CIsEmpty { via_mut } => json!(["cempty", via_mut]),
             Op::Vanish => json!(["vanish"]),
+            Op::SyncFault => json!(["sync_fault"]),
         }
     }
     pub fn from_json(v: &Value) -> Option<Op> {
@@ -128,6 +134,7 @@ impl Op {
             "cclear" => Op::CClear,
             "cempty" => Op::CIsEmpty { via_mut: b(1) },
             "vanish" => Op::Vanish,
+            "sync_fault" => Op::SyncFault,
             _ => return None,
         })
     }
@@ -377,6 +384,17 @@ pub fn gen_history(rng: &mut Rng, max_reqs: u64, client_ops: bool, faults: bool)
         // cycle_id() anywhere after the load: before or after the record vanishes
         let p3 = p1 + 1 + rng.below((r.ops.len() - p1) as u64) as usize;
         r.ops.insert(p3, Op::CycleId);
+    }
+    // ... or a store whose next `update` fails once, met by an explicit sync() of pending changes; the handler carries on and
+    // the middleware finalises as usual
+    if faults && rng.chance(1, 6) {
+        let ri = rng.below(reqs.len() as u64) as usize;
+        let r = &mut reqs[ri];
+        let k = rng.below(3) as u8;
+        let p1 = rng.below(r.ops.len() as u64 + 1) as usize;
+        r.ops.insert(p1, Op::SInsert { k, typed: rng.chance(1, 2) });
+        let p2 = p1 + 1 + rng.below((r.ops.len() - p1) as u64) as usize;
+        r.ops.insert(p2, Op::SyncFault);
     }
     // After the workload: sometimes replay the previous cookie (is the old id really dead?) ...
     if rng.chance(1, 3) {
